@@ -19,7 +19,8 @@ META = dict(
                       'monotonicity/clamp/cyclic/missing mode, 2-D and 3-D parameter shapes; CDF / cdf_fn: input_dim 2-4, 2-3 basis '
                       'functions, units 1-2, relu6/sigmoid, mean/geometric_mean/none, sparsity 1-2, all scaling types, exp transform; '
                       'all real parameters and inputs', thorough='5 keypoints, input_dim 4 with units 4'),
-    outside=['IEEE-754 rounding/overflow; softmax/sigmoid saturating to exactly 0 or 1', 'upper bound of the geometric mean beyond '
+    outside=['IEEE-754 rounding/overflow; sigmoid saturating to exactly 0 or 1; softmax underflow other than the modelled one (one '
+             'keypoint share exactly 0 in pwl_calibration_fn, division by the zero length executed as IEEE)', 'upper bound of the geometric mean beyond '
              '1+epsilon (the epsilon is documented)'],
     assumptions=['contracts: softmax outputs positive and sum to 1; sigmoid in (0,1) and monotone; exp > 0 monotone; log monotone',
                  'TF op semantics per vf/interp.py (validated per case)', 'z3 is sound'],
@@ -131,6 +132,65 @@ def case_pwl_fn(**p):
       case.solve('missing-output-independent-of-position', core.any_of([sym.NE(out[0, u], out[1, u]) for u in range(p['units'])]),
                  assumptions=miss2 + same_params, witness=wit, timeout=tmo, sig=dict(query='missing'), replay=replay)
   case.solve('twin:output-varies', sym.NE(out[0, 0], out[1, 0]), expect='sat', kind='twin', timeout=60)
+  return case
+
+
+def case_pwl_fn_underflow(**p):
+  """pwl_calibration_fn with a keypoint share that underflowed to exactly 0 in softmax (float32 does that for logit gaps
+  beyond ~104): a zero-length piece, divided by the IEEE way (x/0 = +-inf, 0/0 = NaN).  The output must still be a number
+  inside the bounds and monotone."""
+  import tensorflow as tf
+  from tensorflow_lattice.python import conditional_pwl_calibration as cp
+  case = Case(PROP, p['name'], {k: v for k, v in p.items() if k != 'name'})
+  case.encoded(cp.pwl_calibration_fn, cp._compute_interpolation_weights)
+  p = dict(p, units=1)
+  kw = _pwl_kw(p)
+  nk, zi = p['nk'], p['zero']
+  B = 2
+  xs, ishape, oshape = _pwl_shapes(dict(p, shared_params=True), B)
+  tr = Traced(lambda x, ki, ko: cp.pwl_calibration_fn(x, ki, ko, **kw),
+              [tf.TensorSpec(xs, tf.float32), tf.TensorSpec(ishape, tf.float32), tf.TensorSpec(oshape, tf.float32)], name='pwl_calibration_fn')
+  done, mism = tr.validate(np.random.default_rng(0), n=2, gen=lambda rng, i, shp, trial: rng.integers(-8, 17, size=shp) / 4.0)
+  omin, omax = Fraction(kw['keypoint_output_min']), Fraction(kw['keypoint_output_max'])
+  tmo = p.get('timeout', 60)
+  replay = dict(fn='pwl-underflow', params=p)
+  state = dict(n=0)
+
+  def build(extra, leaf):
+    c = sym.new_ctx()
+    c.memo['ieee_div0'] = True
+    c.memo['softmax_zero'] = (zi,)
+    c.memo['softmax_zero_call'] = 0  # the keypoint softmax is the first one of the function
+    c.case_assumptions = list(extra)
+    x = sym.symbolic('x', tuple(xs))
+    ki = sym.symbolic('ki', tuple(ishape))
+    ko = sym.symbolic('ko', tuple(oshape))
+    wit = dict(x=x, ki=ki, ko=ko)
+    tag = '[leaf=%s]' % (leaf or 'root')
+    state['n'] += 1
+
+    def shares():
+      rows = [vs for (row, vs) in c.softmax.values()]
+      return np.array(rows[0], dtype=object).reshape(1, -1) if rows else np.zeros((1, 0), dtype=object)
+    try:
+      (out,) = tr.sym_run(x, ki, ko)
+    except sym.Undefined as e:
+      wit['shares'] = shares()
+      case.solve('output-is-a-number-with-collapsed-piece' + tag, z3.BoolVal(True), witness=wit, timeout=tmo,
+                 sig=dict(query='underflow-nan', why=str(e)[:40]), replay=replay)
+      return
+    wit['shares'] = shares()
+    case.meta.update(validation_points=done, validation_mismatch=mism, ops=tr.ops_seen, stubs=sym.ctx().stubs)
+    bad = []
+    for v in out.reshape(-1):
+      bad += [sym.s_cmp('lt', v, omin), sym.s_cmp('gt', v, omax), z3.Not(sym.defined(v))]
+    case.solve('outputs-within-bounds-with-collapsed-piece' + tag, core.any_of(bad), witness=wit, timeout=tmo,
+               sig=dict(query='underflow-bounds'), replay=replay, required=p.get('required', True))
+    if kw['monotonicity'] == 'increasing':
+      case.solve('non-decreasing-with-collapsed-piece' + tag, sym.s_cmp('gt', out[0, 0], out[1, 0]), assumptions=[x[0, 0] <= x[1, 0]],
+                 witness=wit, timeout=tmo, sig=dict(query='underflow-monotone'), replay=replay, required=p.get('required', True))
+    case.solve('twin:leaf-reachable' + tag, z3.BoolVal(True), expect='sat', kind='twin', timeout=30)
+  core.split_run(build)
   return case
 
 
@@ -246,6 +306,40 @@ def replay(r):
     except ValueError as e:
       return dict(reproduced=True, detail=dict(error=str(e)[:300]))
     return dict(reproduced=False, detail='accepted')
+  if rp['fn'] == 'pwl-underflow':
+    # logits reproduce the model's softmax shares, the underflowed one 200 below the smallest other (float32 softmax
+    # then returns exactly 0); an input the model puts on a keypoint is put on the float keypoint computed by the same ops
+    from tensorflow_lattice.python import conditional_pwl_calibration as cp
+    kw = _pwl_kw(p)
+    zi = p['zero']
+    sh = core.witness_np(w['shares']).astype(np.float64).reshape(-1)
+    lg = np.where(sh > 0, np.log(np.where(sh > 0, sh, 1.0)), 0.0)
+    lg[zi] = float(np.min(lg[[i for i in range(len(lg)) if i != zi]])) - 200.0
+    ki = (lg[1:] - lg[0]).astype(np.float32).reshape(core.witness_np(w['ki']).shape)
+    ko = core.witness_np(w['ko']).astype(np.float32)
+    padded = cp._front_pad(tf.constant(ki.reshape(1, 1, -1)), 0.0)
+    deltas = tf.nn.softmax(padded, axis=-1) * (kw['keypoint_input_max'] - kw['keypoint_input_min'])
+    kps = (tf.cumsum(deltas, exclusive=True, axis=-1) + kw['keypoint_input_min']).numpy().reshape(-1)
+    kps = np.concatenate([kps, [kw['keypoint_input_max']]])
+    x = core.witness_np(w['x']).astype(np.float32)
+    for b_ in range(x.shape[0]):
+      j = int(np.argmin(np.abs(kps - x[b_, 0])))
+      if abs(kps[j] - x[b_, 0]) <= 1e-5 * max(1.0, abs(float(x[b_, 0]))):
+        x[b_, 0] = kps[j]
+    out = cp.pwl_calibration_fn(tf.constant(x), tf.constant(ki), tf.constant(ko), **kw).numpy().astype(np.float64)
+    det = dict(x=x.tolist(), out=out.tolist(), keypoints=kps.tolist(), keypoint_input_parameters=ki.tolist(),
+               keypoint_output_parameters=ko.tolist())
+    if kps[zi] != kps[zi + 1] and zi + 1 < len(kps) - 1:
+      return dict(reproduced=False, detail=dict(det, note='the share did not underflow on the real code'))
+    if not np.all(np.isfinite(out)):
+      return dict(reproduced=True, detail=dict(det, what='non-finite output for finite parameters and inputs'))
+    q = r['query']
+    omin, omax = kw['keypoint_output_min'], kw['keypoint_output_max']
+    if q.startswith('non-decreasing'):
+      bad = bool(x[0, 0] <= x[1, 0] and np.any(out[0] > out[1] + tolf))
+    else:
+      bad = bool(np.any(out < omin - tolf) or np.any(out > omax + tolf))
+    return dict(reproduced=bad, detail=det)
   if rp['fn'] == 'pwl':
     from tensorflow_lattice.python import conditional_pwl_calibration as cp
     kw = _pwl_kw(p)
@@ -316,6 +410,11 @@ def cases(tier, seed):
   add('case_pwl_fn', nk=2, units=1, mono='increasing', omit_input_params=True)
   add('case_pwl_fn', nk=2, units=2, mono='none', omit_input_params=True, per_unit_input=True)
   add('case_pwl_fn', nk=3, units=1, mono='none')
+  # floating point: a keypoint share that underflowed to exactly 0 in softmax (zero-length piece)
+  for nk_, zeros in ((3, (0, 1)), (4, (0, 1, 2))):
+    for z_ in zeros:
+      for mono_ in ('none', 'increasing'):
+        add('case_pwl_fn_underflow', nk=nk_, zero=z_, mono=mono_, required=(nk_ == 3), timeout=60 if nk_ == 3 else 120)
   add('case_pwl_fn', nk=3, units=2, mono='increasing', per_unit_input=True)
   add('case_pwl_fn', nk=4, units=1, mono='increasing', clamp_min=True, clamp_max=True)
   add('case_pwl_fn', nk=3, units=2, mono='increasing', clamp_min=True, omin=-1.0, omax=2.5, imin=-1.0, imax=1.0)
